@@ -35,6 +35,7 @@ type Layout struct {
 type TypeInfo struct {
 	embedded map[string]bool // struct types that occur by value inside another type (interior pointers possible)
 	visited  map[types.Type]bool
+	arrRanges map[string][][2]int64
 	layouts  map[string]*Layout
 	typeIdx  map[string]int
 	idxType  []types.Type
@@ -262,6 +263,56 @@ func (ti *TypeInfo) NoteType(t types.Type) {
 		for i := 0; i < u.NumMethods(); i++ {
 			ti.NoteType(u.Method(i).Type())
 		}
+	}
+}
+
+// ArrayFieldRanges returns, for slices with element type elem, the slot ranges [lo,hi) of array fields of
+// struct types (relative to nothing: absolute slots, since struct bases are global constants) into which
+// such a slice may point. Everything else a slice can point to lives at slots >= 0.
+func (ti *TypeInfo) ArrayFieldRanges(elem types.Type) [][2]int64 {
+	key := types.TypeString(elem, nil)
+	if r, ok := ti.arrRanges[key]; ok {
+		return r
+	}
+	var out [][2]int64
+	seen := map[string]bool{}
+	for t := range ti.visited {
+		st, ok := t.Underlying().(*types.Struct)
+		if !ok {
+			continue
+		}
+		tk := types.TypeString(t, nil)
+		if seen[tk] {
+			continue
+		}
+		seen[tk] = true
+		func() {
+			defer func() { recover() }() // types that cannot be laid out are never allocated by verified code
+			base := ti.BaseSlot(t)
+			ti.collectArrays(st, base, key, &out)
+		}()
+	}
+	if ti.arrRanges == nil {
+		ti.arrRanges = map[string][][2]int64{}
+	}
+	ti.arrRanges[key] = out
+	return out
+}
+
+func (ti *TypeInfo) collectArrays(st *types.Struct, base int64, elemKey string, out *[][2]int64) {
+	off := base
+	for i := 0; i < st.NumFields(); i++ {
+		ft := st.Field(i).Type()
+		w := ti.LayoutOf(ft).Width
+		switch u := ft.Underlying().(type) {
+		case *types.Array:
+			if types.TypeString(u.Elem(), nil) == elemKey {
+				*out = append(*out, [2]int64{off, off + w})
+			}
+		case *types.Struct:
+			ti.collectArrays(u, off, elemKey, out)
+		}
+		off += w
 	}
 }
 
